@@ -93,6 +93,21 @@ CLAIMS = {
               "as such), the solver's share is the quantification over the table data; subset selectors inside multi-field keys "
               "and partial slices are outside the statement"),
         ref='DESIGN.md section 4 C12'),
+    'C14': dict(
+        text=("Policy.run_on / evaluate_on / calc_returns and POMDPPolicy.run_on are executed with a nondeterministic generator "
+              "(every draw a solver-chosen index among positive-weight items), a SYMBOLIC step cap and symbolic rewards, so all "
+              "roll-outs any seed can produce within the bound are explored. On every path z3 / the harness proves the "
+              "trajectory-validity clauses verbatim (start state, positive-probability action / successor / observation, model "
+              "reward as a term, chaining, agent state = the policy's own update, stop exactly at the first absorbing state or at "
+              "the cap, bare final step); calc_returns equals the backward recursion for symbolic rewards AND symbolic discount "
+              "(incl. 0 and 1); evaluate_on's outputs equal the averages recomputed from its own roll-outs (spied), and the "
+              "truncated exact evaluation for a deterministic policy on a deterministic chain."),
+        note=("MDP skeletons of 1-4 states, policies {uniform, first action, explicit zero mass on an available action, tabular}, "
+              "given / sampled / absorbing start states, caps 0..3 (quick) 0..4 (thorough), 1-2 simulations, reward sequences of "
+              "length 0-4; POMDP roll-outs with a value-based policy and a 2-node stochastic controller, caps 0..2/3. The "
+              "deterministic FiniteStateController class cannot be constructed at all (its two shape assertions are swapped) and is "
+              "therefore not a roll-out driver here."),
+        ref='DESIGN.md section 4 C14'),
     'C11': dict(
         text=("For every support size within the bound and every distribution kind, the probability-calculus laws are "
               "proved for ALL probability/weight/score values at once (symbolic reals, zero entries included), by running "
